@@ -125,12 +125,15 @@ def ensure_facts(profile='debug', repo=REPO):
         if th not in head:
             raise NotAnalysed('fact file does not carry the current tree hash')
         open(os.path.join(out, 'ok'), 'w').write(th)
-        # keep the cache small: drop fact dirs other than the 6 most recent
+        # keep the cache small: drop fact dirs other than the 6 most recent (never one touched in the last ten minutes: a
+        # campaign worker with its own build slot may be writing or reading it)
         base = os.path.join(CACHE, 'facts')
         ds = sorted((os.path.getmtime(os.path.join(base, d)), d) for d in os.listdir(base))
         keep = int(os.environ.get('VERIF_FACTS_KEEP', '6'))
-        for _, d in ds[:-keep]:
-            sh('rm -rf %s' % os.path.join(base, d))
+        now = time.time()
+        for mt, d in ds[:-keep]:
+            if now - mt > 600:
+                sh('rm -rf %s' % os.path.join(base, d))
         return out, th, False
     finally:
         fcntl.flock(lock, fcntl.LOCK_UN)
